@@ -758,6 +758,9 @@ pub fn run_c09(args: &Args, rec: &mut Recorder) {
         key.push_str(&b0.write_to_string());
         rec.nontrivial(key.as_bytes());
         rec.eval();
+        if rec.want_sample() && _case % 211 == 1 {
+            rec.sample(Json::obj().with("A", Json::s(&clip(&a0.write_to_string(), 300))).with("B", Json::s(&clip(&b0.write_to_string(), 300))));
+        }
         let mb0 = &b0.project.module[0];
         let ma0 = &a0.project.module[0];
         let idx_b = Index::build(mb0);
